@@ -31,6 +31,7 @@ type node struct {
 	children map[string]*node
 	order    []string // insertion order of children keys (deterministic DFS)
 	isNode   bool     // a path of the input ends here (a model state to expand)
+	extra    []Action // actions to execute at this node in addition to its children (the model's successful transitions)
 	expand   bool
 	needed   bool
 	idx      int
@@ -159,6 +160,19 @@ func (e *Explorer) dfs(n *node, st *Snapshot, line int) error {
 			}
 		}
 	}
+	for _, a := range n.extra {
+		k := a.Key()
+		if done[k] {
+			continue
+		}
+		if c, ok := n.children[k]; ok && c.needed {
+			continue // executed below as a tree edge
+		}
+		done[k] = true
+		if _, _, err := e.apply(st, line, a); err != nil {
+			return err
+		}
+	}
 	for _, k := range n.order {
 		c := n.children[k]
 		if !c.needed || done[k] {
@@ -196,7 +210,7 @@ func Explore(w *World, out *vcommon.Writer, o Options) (*Explorer, error) {
 	var ends []*node
 	ends = append(ends, root)
 	npaths := 0
-	insert := func(p []Action) {
+	insert := func(p []Action) *node {
 		npaths++
 		cur := root
 		for i := range p {
@@ -214,6 +228,7 @@ func Explore(w *World, out *vcommon.Writer, o Options) (*Explorer, error) {
 			cur.isNode = true
 			ends = append(ends, cur)
 		}
+		return cur
 	}
 	for _, p := range o.Paths {
 		insert(p)
@@ -222,6 +237,21 @@ func Explore(w *World, out *vcommon.Writer, o Options) (*Explorer, error) {
 		// streamed: a path is dropped as soon as it has been merged into the trie
 		err := vcommon.ReadLines(o.PathFile, func(raw json.RawMessage) error {
 			var p []Action
+			if len(raw) > 0 && raw[0] == '{' {
+				var o struct {
+					P []Action `json:"p"`
+					X []Action `json:"x"`
+				}
+				if err := json.Unmarshal(raw, &o); err != nil {
+					return fmt.Errorf("bad path line: %v", err)
+				}
+				n := insert(o.P)
+				for i := range o.X {
+					normalize(&o.X[i])
+				}
+				n.extra = o.X
+				return nil
+			}
 			if err := json.Unmarshal(raw, &p); err != nil {
 				return fmt.Errorf("bad path line: %v", err)
 			}
